@@ -16,6 +16,7 @@ import (
 	"github.com/emirpasic/gods/v2/maps/linkedhashmap"
 	"github.com/emirpasic/gods/v2/sets/hashset"
 	"github.com/emirpasic/gods/v2/sets/linkedhashset"
+	"github.com/emirpasic/gods/v2/sets/treeset"
 )
 
 // Call is one public call with its arguments (uniform across families so that the logged
@@ -108,6 +109,16 @@ func canon(x Inst) string {
 
 func fullFP(x Inst) string { return fpOf(deepString(x.Target(), nil, true, false)) }
 
+// fpSkip: the call in progress belongs to a long script and its deep fingerprints are not taken
+var fpSkip bool
+
+func stepFP(x Inst) string {
+	if fpSkip {
+		return ""
+	}
+	return fullFP(x)
+}
+
 func safeObserve(x Inst) (o Ev, bad bool) {
 	ci := invoke(Ev{"op": "Observe", "kind": x.Kind()}, func() { o = x.Observe() })
 	if ci.Panic || o == nil {
@@ -126,11 +137,15 @@ func step(x Inst, c Call, rs int, pre Ev, extra Ev) (post Ev) {
 	} else {
 		e["pre"] = 0
 	}
-	fp0 := fullFP(x)
-	noteCase(x.Kind(), fmt.Sprint(x.Cfg()), fp0, c.key())
+	fp0 := stepFP(x)
+	if fpSkip {
+		noteCase(x.Kind(), fmt.Sprint(x.Cfg()), "script", c.key())
+	} else {
+		noteCase(x.Kind(), fmt.Sprint(x.Cfg()), fp0, c.key())
+	}
 	var r []any
 	ci := invoke(e, func() { r = x.Do(c) })
-	fp1 := fullFP(x)
+	fp1 := stepFP(x)
 	if r == nil {
 		r = []any{}
 	}
@@ -144,7 +159,7 @@ func step(x Inst, c Call, rs int, pre Ev, extra Ev) (post Ev) {
 	o, bad := safeObserve(x)
 	e["obsbad"] = bad
 	e["post"] = o
-	fp2 := fullFP(x)
+	fp2 := stepFP(x)
 	e["fp"] = []string{fp0, fp1, fp2}
 	for k, v := range extra {
 		e[k] = v
@@ -357,13 +372,31 @@ func clearFloats(j *jobCtx) {
 		mk   func() (add func(float64), clear func(), obs func() Ev)
 	}
 	cases := []fc{
+		// sets: also what the set algebra makes of the cleared set (it may walk the table rather than the ordering) - sizes of
+		// s u {}, {} u s, s \ {}, {} \ s, s n s, s u s, s u {7}, {7} \ s
 		{"hashset", func() (func(float64), func(), func() Ev) {
 			s := hashset.New[float64]()
-			return func(f float64) { s.Add(f) }, s.Clear, func() Ev { return Ev{"size": s.Size(), "empty": s.Empty(), "n": len(s.Values())} }
+			return func(f float64) { s.Add(f) }, s.Clear, func() Ev {
+				e, o := hashset.New[float64](), hashset.New[float64](7)
+				return Ev{"size": s.Size(), "empty": s.Empty(), "n": len(s.Values()), "alg": []int{s.Union(e).Size(), e.Union(s).Size(), s.Difference(e).Size(),
+					e.Difference(s).Size(), s.Intersection(s).Size(), s.Union(s).Size(), s.Union(o).Size(), o.Difference(s).Size()}}
+			}
 		}},
 		{"linkedhashset", func() (func(float64), func(), func() Ev) {
 			s := linkedhashset.New[float64]()
-			return func(f float64) { s.Add(f) }, s.Clear, func() Ev { return Ev{"size": s.Size(), "empty": s.Empty(), "n": len(s.Values())} }
+			return func(f float64) { s.Add(f) }, s.Clear, func() Ev {
+				e, o := linkedhashset.New[float64](), linkedhashset.New[float64](7)
+				return Ev{"size": s.Size(), "empty": s.Empty(), "n": len(s.Values()), "alg": []int{s.Union(e).Size(), e.Union(s).Size(), s.Difference(e).Size(),
+					e.Difference(s).Size(), s.Intersection(s).Size(), s.Union(s).Size(), s.Union(o).Size(), o.Difference(s).Size()}}
+			}
+		}},
+		{"treeset", func() (func(float64), func(), func() Ev) {
+			s := treeset.New[float64]()
+			return func(f float64) { s.Add(f) }, s.Clear, func() Ev {
+				e, o := treeset.New[float64](), treeset.New[float64](7)
+				return Ev{"size": s.Size(), "empty": s.Empty(), "n": len(s.Values()), "alg": []int{s.Union(e).Size(), e.Union(s).Size(), s.Difference(e).Size(),
+					e.Difference(s).Size(), s.Intersection(s).Size(), s.Union(s).Size(), s.Union(o).Size(), o.Difference(s).Size()}}
+			}
 		}},
 		{"hashmap", func() (func(float64), func(), func() Ev) {
 			m := hashmap.New[float64, int]()
